@@ -207,9 +207,11 @@ func NewPointProtoFromS2LatLng(ll s2.LatLng) *pb.PointProto {
 }
 
 func PointProtoToS2LatLng(point *pb.PointProto) s2.LatLng {
+	// A message field that's missing on the wire is nil here, and, as for
+	// any proto3 message, reads as its default value.
 	return s2.LatLng{
-		Lat: s1.Angle(point.LatE7) * s1.E7,
-		Lng: s1.Angle(point.LngE7) * s1.E7,
+		Lat: s1.Angle(point.GetLatE7()) * s1.E7,
+		Lng: s1.Angle(point.GetLngE7()) * s1.E7,
 	}
 }
 
